@@ -132,13 +132,16 @@ func sameU64(a, b []uint64) bool {
 
 // enumBatch: N documents; field "x": term t<P> in doc d iff d in P, frequency
 // 1+((P+d)%3) with that many locations; field "y": same sets, frequency 1 and
-// no locations (singletons become 1-hit entries once merged).
+// no locations (singletons become 1-hit entries once merged); field "z": same
+// sets, frequency/norm disabled (frequency 0), one location in the documents
+// where P+d is even - so neighbouring hits differ in whether locations follow.
 func enumBatch(n int) *spec.BatchSpec {
 	b := &spec.BatchSpec{}
 	for d := 0; d < n; d++ {
 		doc := spec.DocSpec{ID: spec.B(fmt.Sprintf("e%d", d))}
 		fx := spec.FieldSpec{Name: "x", Type: 't'}
 		fy := spec.FieldSpec{Name: "y", Type: 't'}
+		fz := spec.FieldSpec{Name: "z", Type: 't', Len: 1}
 		for p := 1; p < 1<<n; p++ {
 			if p&(1<<d) == 0 {
 				continue
@@ -153,8 +156,13 @@ func enumBatch(n int) *spec.BatchSpec {
 			fx.Len += freq
 			fy.Tokens = append(fy.Tokens, spec.TokenSpec{Term: term, Freq: 1})
 			fy.Len++
+			tz := spec.TokenSpec{Term: term}
+			if (p+d)%2 == 0 {
+				tz.Locs = []spec.LocSpec{{Pos: p + 1, Start: d, End: d + 2}}
+			}
+			fz.Tokens = append(fz.Tokens, tz)
 		}
-		doc.Fields = []spec.FieldSpec{fx, fy}
+		doc.Fields = []spec.FieldSpec{fx, fy, fz}
 		b.Docs = append(b.Docs, doc)
 	}
 	return b
@@ -341,7 +349,7 @@ func TestC07Enum(t *testing.T) {
 						if n > fullN && fi != 2 {
 							continue
 						}
-						for _, field := range []string{"x", "y"} {
+						for _, field := range []string{"x", "y", "z"} {
 							for prov, seg := range segs {
 								term := fmt.Sprintf("t%03d", p)
 								hits := filterHits(want.Index[field][term], func(doc uint64) bool { return e&(1<<doc) != 0 })
